@@ -61,6 +61,14 @@ class HarnessError(Exception):
     pass
 
 
+class TaskStalled(BaseException):
+    """Raised by the watchdog when no oracle evaluation completed for STALL_S seconds."""
+
+
+STALL_TICK = 20
+STALL_S = int(os.environ.get("VERIF_STALL_S", "180"))
+
+
 class Violation(Exception):
     def __init__(self, prop, sub, kind, case, message, key=None):
         super().__init__(f"{prop}/{sub}/{kind}: {message}")
@@ -154,6 +162,15 @@ class Ctx:
         self.notes = []
         self.case = None  # last case handed to an oracle (for exception attribution)
         self.sub = None
+        self.lazy = None  # optional zero-argument callable building (sub, case) on demand
+
+    def current(self):
+        if self.lazy is not None:
+            try:
+                return self.lazy()
+            except Exception:  # noqa
+                pass
+        return self.sub, self.case
 
     # -- counting -------------------------------------------------------------------
     def ev(self, n=1):
@@ -192,6 +209,7 @@ class Ctx:
     # -- oracles ----------------------------------------------------------------------
     def begin(self, sub, case):
         self.sub, self.case = sub, case
+        self.lazy = None
         self.evaluations += 1
 
     def violation(self, sub, kind, case, message, key=None):
@@ -263,6 +281,42 @@ def drive(ctx, name, strategy, body, max_examples, examples=(), shrink=True):
 # --------------------------------------------------------------------------------------
 # task execution (worker side)
 # --------------------------------------------------------------------------------------
+def _install_watchdog(ctx):
+    import signal
+    state = {"last": -1, "stalled": 0}
+
+    def tick(signum, frame):
+        if ctx.evaluations != state["last"]:
+            state["last"], state["stalled"] = ctx.evaluations, 0
+            return
+        state["stalled"] += STALL_TICK
+        if state["stalled"] >= STALL_S:
+            state["stalled"] = 0
+            raise TaskStalled()
+
+    signal.signal(signal.SIGALRM, tick)
+    signal.setitimer(signal.ITIMER_REAL, STALL_TICK, STALL_TICK)
+    return state
+
+
+def _record_exception(ctx, prop, task_name, e):
+    """An exception whose innermost frame is inside py_ecc is library behaviour on a
+    generated input; anything else is a harness error (re-raised)."""
+    sub, case = ctx.current()
+    if in_repo_frame(e.__traceback__) and case is not None:
+        kind = "exception:" + type(e).__name__
+        k = {"sub": sub, "kind": kind}
+        f = match_known(ctx.findings, prop, k)
+        if f is not None:
+            ctx.known_hits[f.get("id", "?")] += 1
+        else:
+            ctx.violations.append(
+                Violation(prop, sub or task_name, kind, case,
+                          f"unexpected {type(e).__name__}: {e}"[:500], k).as_dict())
+        return True
+    return False
+
+
 def _run_task(args):
     prop, modname, task_name, fn_name, kwargs, tier, seed = args
     t0 = time.time()
@@ -273,33 +327,48 @@ def _run_task(args):
         import_repo()
         mod = __import__(modname, fromlist=["x"])
         fn = getattr(mod, fn_name)
+        _install_watchdog(ctx)
         try:
             fn(ctx, **kwargs)
         except Violation as v:
             ctx.violations.append(v.as_dict())
         except HarnessError:
             raise
+        except TaskStalled:
+            # No evaluation finished for STALL_S seconds.  Re-run the case that was in flight on
+            # its own: if it stalls again it is non-termination of the code under test on a
+            # concrete input (a violation); otherwise the task was merely slow (inconclusive).
+            sub, case = ctx.current()
+            if case is None:
+                raise HarnessError(f"task stalled for {STALL_S}s with no case in flight")
+            ctx2 = Ctx(prop, task_name, tier, seed, ctx.findings)
+            _install_watchdog(ctx2)
+            try:
+                replay_case(ctx2, mod, {"sub": sub, "case": case})
+                ctx.notes.append(f"task {task_name} stalled {STALL_S}s but the case in flight "
+                                 "completed on its own: remainder inconclusive")
+                status, err = "harness_error", f"task {task_name}: time budget hit (inconclusive)"
+            except TaskStalled:
+                ctx.violations.append(Violation(
+                    prop, sub or task_name, "hang", case,
+                    f"the library did not return within {STALL_S}s on this single case "
+                    f"(twice; normal cost is seconds at most)", {"sub": sub, "kind": "hang"}).as_dict())
+            except Violation as v:
+                ctx.violations.append(v.as_dict())
         except BaseException as e:  # noqa
             if isinstance(e, (KeyboardInterrupt, SystemExit)):
                 raise
-            # hypothesis wraps nothing with report_multiple_bugs=False; an exception whose
-            # innermost frame is inside py_ecc is library behaviour on a generated input
-            if in_repo_frame(e.__traceback__) and ctx.case is not None:
-                kind = "exception:" + type(e).__name__
-                k = {"sub": ctx.sub, "kind": kind}
-                f = match_known(ctx.findings, prop, k)
-                if f is not None:
-                    ctx.known_hits[f.get("id", "?")] += 1
-                else:
-                    ctx.violations.append(
-                        Violation(prop, ctx.sub or task_name, kind, ctx.case,
-                                  f"unexpected {type(e).__name__}: {e}"[:500], k).as_dict()
-                    )
-            else:
+            if not _record_exception(ctx, prop, task_name, e):
                 raise
     except BaseException as e:  # noqa
         status = "harness_error"
         err = "".join(traceback.format_exception(type(e), e, e.__traceback__))[-4000:]
+    finally:
+        try:
+            import signal
+            signal.setitimer(signal.ITIMER_REAL, 0)
+        except Exception:  # noqa
+            pass
     r = ctx.result()
     r["status"], r["error"], r["wall_s"] = status, err, time.time() - t0
     return r
